@@ -6,22 +6,25 @@ Obs == [where |-> val.where, k |-> val.k, ptr |-> val.ptr, len |-> val.len, cont
 HInit == Init /\ hist = <<>>
 Log(e) == hist' = Append(hist, e)
 HNext ==
-  \/ \E k \in Kind, n \in 0..MaxLen : RustMake(k, n) /\ Log([op |-> "RustMake", k |-> k, n |-> n, ptr |-> val'.ptr, len |-> val'.len, contents |-> ContentsOf(val', data')])
-  \/ \E k \in Kind, n \in 1..MaxLen, m \in 0..MaxLen : RustMakeSub(k, n, m) /\ Log([op |-> "RustMake", k |-> k, n |-> n, sub |-> m, ptr |-> val'.ptr, len |-> val'.len, contents |-> ContentsOf(val', data')])
-  \/ \E k \in Kind : ForeignNull(k) /\ Log([op |-> "ForeignNull", k |-> k, ptr |-> "null", len |-> 0, contents |-> <<>>])
-  \/ Export /\ Log([op |-> "Export", ptr |-> val'.ptr, len |-> val'.len, contents |-> ContentsOf(val', data')])
-  \/ Import /\ Log([op |-> "Import", ptr |-> val'.ptr, len |-> val'.len, contents |-> ContentsOf(val', data')])
-  \/ ReadView /\ Log([op |-> "ReadView", ptr |-> val.ptr, len |-> val.len, contents |-> Contents(val)])
-  \/ \E i \in 1..MaxLen : WriteView(i) /\ Log([op |-> "WriteView", i |-> i, ptr |-> val.ptr, len |-> val.len, contents |-> ContentsOf(val, data')])
-  \/ DropOwned /\ Log([op |-> "DropOwned", ptr |-> "null", len |-> 0, contents |-> <<>>, freed |-> (frees' > frees)])
-  \/ EndBorrow /\ Log([op |-> "EndBorrow", ptr |-> "null", len |-> 0, contents |-> <<>>, freed |-> (frees' > frees)])
+  \/ \E k \in Kind, n \in 1..MaxLen : ForeignMake(k, n) /\ UNCHANGED scratch /\ Log([op |-> "ForeignMake", k |-> k, n |-> n, ptr |-> "A", len |-> n, contents |-> ContentsOf(val', data')])
+  \/ \E n \in 0..MaxLen : ForeignAlloc(n) /\ Log([op |-> "ForeignAlloc", n |-> n, ptr |-> "null", len |-> 0, contents |-> <<>>])
+  \/ ForeignFree /\ Log([op |-> "ForeignFree", n |-> scratch.n, ptr |-> "null", len |-> 0, contents |-> <<>>])
+  \/ \E k \in Kind, n \in 0..MaxLen : RustMake(k, n) /\ UNCHANGED scratch /\ Log([op |-> "RustMake", k |-> k, n |-> n, ptr |-> val'.ptr, len |-> val'.len, contents |-> ContentsOf(val', data')])
+  \/ \E k \in Kind, n \in 1..MaxLen, m \in 0..MaxLen : RustMakeSub(k, n, m) /\ UNCHANGED scratch /\ Log([op |-> "RustMake", k |-> k, n |-> n, sub |-> m, ptr |-> val'.ptr, len |-> val'.len, contents |-> ContentsOf(val', data')])
+  \/ \E k \in Kind : ForeignNull(k) /\ UNCHANGED scratch /\ Log([op |-> "ForeignNull", k |-> k, ptr |-> "null", len |-> 0, contents |-> <<>>])
+  \/ Export /\ UNCHANGED scratch /\ Log([op |-> "Export", ptr |-> val'.ptr, len |-> val'.len, contents |-> ContentsOf(val', data')])
+  \/ Import /\ UNCHANGED scratch /\ Log([op |-> "Import", ptr |-> val'.ptr, len |-> val'.len, contents |-> ContentsOf(val', data')])
+  \/ ReadView /\ UNCHANGED scratch /\ Log([op |-> "ReadView", ptr |-> val.ptr, len |-> val.len, contents |-> Contents(val)])
+  \/ \E i \in 1..MaxLen : WriteView(i) /\ UNCHANGED scratch /\ Log([op |-> "WriteView", i |-> i, ptr |-> val.ptr, len |-> val.len, contents |-> ContentsOf(val, data')])
+  \/ DropOwned /\ UNCHANGED scratch /\ Log([op |-> "DropOwned", ptr |-> "null", len |-> 0, contents |-> <<>>, freed |-> (frees' > frees)])
+  \/ EndBorrow /\ UNCHANGED scratch /\ Log([op |-> "EndBorrow", ptr |-> "null", len |-> 0, contents |-> <<>>, freed |-> (frees' > frees)])
 HSpec == HInit /\ [][HNext]_<<vars, hist>>
-Emit == (val.where = "none" /\ steps > 0) => PrintT(<<"BEH", ToJson(hist)>>)
+Emit == Finished => PrintT(<<"BEH", ToJson(hist)>>)
 \* after the value is gone nothing more happens in a behaviour
-Stop == ~(val.where = "none" /\ steps > 0)
+Stop == ~Finished
 \* negative model: Into() without NULL normalisation keeps the null pointer
 IntoNoNorm(v) == [where |-> "rust", k |-> v.k, ptr |-> v.ptr, len |-> v.len]
 ImportN == /\ Tick /\ val.where = "ffi" /\ val' = IntoNoNorm(val) /\ UNCHANGED <<data, alive, frees, orig, bad>>
-NextN == (\E k \in Kind, n \in 0..MaxLen : RustMake(k, n)) \/ (\E k \in Kind, n \in 1..MaxLen, m \in 0..MaxLen : RustMakeSub(k, n, m)) \/ (\E k \in Kind : ForeignNull(k)) \/ Export \/ ImportN \/ ReadView \/ DropOwned \/ EndBorrow
+NextN == UNCHANGED scratch /\ ((\E k \in Kind, n \in 0..MaxLen : RustMake(k, n)) \/ (\E k \in Kind, n \in 1..MaxLen, m \in 0..MaxLen : RustMakeSub(k, n, m)) \/ (\E k \in Kind : ForeignNull(k)) \/ Export \/ ImportN \/ ReadView \/ DropOwned \/ EndBorrow)
 SpecN == Init /\ hist = <<>> /\ [][NextN /\ UNCHANGED hist]_<<vars, hist>>
 =============================================================================
